@@ -13,6 +13,8 @@ import ast
 
 from .. import blockproto
 from ..domains import AbsStr
+from ..affine import Aff, LenStr
+from ..interp import AbstractValue, Unknown, enumerate_paths
 from ..interp import Interp
 from ..interp import Oracle, Obj, Unknown, enumerate_paths, Raised, LoopTruncated, PathLimit, MISSING
 from ..model import AnalysisError, ClassInfo, ValueRef, loc, PKG
@@ -29,6 +31,150 @@ EXPLANATION = (
     "prepend arithmetic and laziness is not decided.")
 
 
+def _has_slice(prov):
+    if isinstance(prov, tuple):
+        if prov and prov[0] == 'idx' and isinstance(prov[1], tuple) and prov[1] and prov[1][0] == 'slice':
+            return True
+        if prov and prov[0] == 'part':
+            return True
+        return any(_has_slice(x) for x in prov)
+    return False
+
+
+def rule_strip_provenance(ctx, rep):
+    """Marker stripping in the quote reader: every element of the buffer handed to the nested tokenizer is
+    either the source line itself (lazy continuation: whitespace preserved) or the source line with its
+    marker sliced off; never a constant, never a line that was stripped without a marker."""
+    model = ctx.model
+    rule = 'R-STRIP-PROVENANCE'
+    rep.rule(rule, 'quote buffer elements: the line itself (lazy) or the line with the marker sliced off')
+    q = model.cls('block_token.Quote')
+    rd = q.lookup('read')[1]
+    rep.instance(rule)
+    n = 0
+    seen = set()
+    for trace, (kind, r, nested, w) in c13.explore_reader(model, q):
+        bufs = [args[0] for caller, args, kwargs in nested if args]
+        if not bufs and kind == 'ret':
+            # the reader hands its buffer on in its result instead of tokenizing it itself
+            bufs = [x for x in (r if isinstance(r, tuple) else [r]) if isinstance(x, list)]
+        for buf in bufs:
+            if not isinstance(buf, list):
+                continue
+            for e in buf:
+                n += 1
+                if isinstance(e, AbsStr):
+                    idx = c13.line_index(e.prov)
+                    identity = isinstance(e.prov, tuple) and len(e.prov) == 3 and e.prov[0] == 'src'
+                    ok = idx is not None and (identity or _has_slice(e.prov))
+                    what = 'derived from line %s without removing a marker (%s)' % (idx, '->'.join(str(x) for x in e.prov[:2]))
+                else:
+                    ok = False
+                    what = 'the constant %r' % (e,)
+                if not ok and what not in seen:
+                    seen.add(what)
+                    rep.obligation(rule, False, {'reader': rd.short, 'element': what})
+                    rep.find(rule, rd.short, 'constant-element' if not isinstance(e, AbsStr) else 'stripped-without-marker',
+                             'Quote.read hands the nested tokenizer a buffer element that is %s: the quoted text is not '
+                             'the original text with its marker removed (whitespace inside code or before lazy '
+                             'continuation text is lost)' % what, loc(model.unit_of(rd), rd.node))
+    rep.obligation(rule, not seen, {'reader': rd.short, 'buffer_elements_checked': n})
+    rep.floor(rule, n, 20)
+
+
+class LenMatch(AbstractValue):
+    """A successful match of the list-marker pattern on a tab-free line, known by group lengths only:
+    group 1 = I spaces, group 2 = leader of length D, group 3 = N spaces (or end of line)."""
+
+    def __init__(self):
+        self.I, self.D, self.N = Aff.sym('I'), Aff.sym('D'), Aff.sym('N')
+
+    def abs_is(self, interp, other):
+        return False if other is None else self is other
+
+    def abs_truth(self, interp):
+        return True
+
+    def abs_getattr(self, interp, name):
+        from ..domains import _AbsBound
+        return _AbsBound(self, name)
+
+    def abs_method(self, interp, name, args, kwargs):
+        g = args[0] if args else 0
+        lens = {0: self.I.add(self.D).add(self.N), 1: self.I, 2: self.D, 3: self.N}
+        if name == 'group':
+            return TabFree(lens[g], 'group%d' % g)
+        if name == 'end':
+            return {0: lens[0], 1: self.I, 2: self.I.add(self.D), 3: lens[0]}[g]
+        if name == 'start':
+            return {0: Aff({}, 0), 1: Aff({}, 0), 2: self.I, 3: self.I.add(self.D)}[g]
+        return Unknown('match.' + name)
+
+
+class TabFree(LenStr):
+    def abs_method(self, interp, name, args, kwargs):
+        if name == 'expandtabs':
+            return self
+        return LenStr.abs_method(self, interp, name, args, kwargs)
+
+
+def rule_marker_arith(ctx, rep):
+    """Content offset of a list item (CommonMark 5.2): with N spaces after the marker, 1 <= N <= 4, the
+    content starts at indentation + len(marker) + N; with N >= 5 (indented code follows) at
+    indentation + len(marker) + 1. Decided over symbolic group lengths (affine), tab-free lines."""
+    model = ctx.model
+    rule = 'R-MARKER-ARITH'
+    rep.rule(rule, 'ListItem.parse_marker: prepend = I + D + N if N <= 4 else I + D + 1 (affine over group lengths)')
+    li = model.cls('block_token.ListItem')
+    pm = li.lookup('parse_marker')[1]
+    rep.instance(rule)
+    outs = []
+
+    def run_(oracle):
+        it = Interp(model)
+        it.reset_run(oracle)
+        m = LenMatch()
+        it.intrinsics['rx.match'] = lambda interp, a, k: m
+        line = TabFree(Aff.sym('L'), 'line')
+        r = it.call(it.getattr(li, 'parse_marker'), [line], {})
+        return r, m
+    for trace, (r, m) in enumerate_paths(run_, 64):
+        conds = [(k, v) for k, v in trace if isinstance(k, tuple) and k and k[0] == 'aff']
+        outs.append((r, conds, m))
+    I, D, N = Aff.sym('I'), Aff.sym('D'), Aff.sym('N')
+    problems = []
+    if not outs:
+        problems.append('parse_marker has no path for a matching line')
+    for r, conds, m in outs:
+        if not (isinstance(r, tuple) and len(r) == 4):
+            problems.append('returns %r for a matching line' % (r,))
+            continue
+        ind, prepend, leader, content = r
+        # which case is this path? the decision on  N > 4  (normalised: N - 4 > 0)
+        big = None
+        for k, v in conds:
+            if k[1] == 'gt' and k[2] == repr(N.add(Aff({}, -4))):
+                big = v
+            elif k[1] == 'lt' and k[2] == repr(N.add(Aff({}, -5))):
+                big = not v
+            else:
+                problems.append('branches on %s %s 0, which is not the test "more than 4 spaces after the marker"' % (k[2], k[1]))
+        if big is None:
+            problems.append('does not distinguish N > 4 spaces after the marker')
+            continue
+        want = I.add(D).add(Aff({}, 1)) if big else I.add(D).add(N)
+        if Aff.lift(ind) != I:
+            problems.append('indentation is %r, not len(group 1)' % (ind,))
+        if Aff.lift(prepend) is None or Aff.lift(prepend) != want:
+            problems.append('prepend is %r when N %s 4; expected %r' % (prepend, '>' if big else '<=', want))
+    ok = not problems
+    rep.obligation(rule, ok, {'paths': len(outs), 'results': [repr(o[0][:2]) for o in outs if isinstance(o[0], tuple)]})
+    for p_ in sorted(set(problems)):
+        rep.find(rule, pm.short, p_.split(',')[0][:60], 'ListItem.parse_marker %s (I = indentation, D = marker length, N = spaces '
+                 'after the marker): the content offset of list items disagrees with CommonMark 5.2' % p_,
+                 loc(model.unit_of(pm), pm.node))
+
+
 def run(ctx):
     rep = ctx.report
     model = ctx.model
@@ -43,7 +189,9 @@ def run(ctx):
         if hit is not None and 'tokenize_block' in ast.unparse(hit[1].node) and cls not in readers:
             readers.append(cls)
     if len(readers) < 2:
-        raise AnalysisError('fewer than two readers re-tokenize a buffer: %s' % [c.short for c in readers])
+        rep.note('only %d reader(s) re-tokenize a buffer in read(): %s' % (len(readers), [c.short for c in readers]))
+    if len(readers) < 1:
+        raise AnalysisError('no reader re-tokenizes a buffer: %s' % [c.short for c in readers])
     n_calls = 0
     for cls in readers:
         rd = cls.lookup('read')[1]
@@ -112,6 +260,8 @@ def run(ctx):
         except PathLimit:
             rep.note('%s: path limit reached' % rd.short)
     rep.floor('R-NEST-SAME', n_calls, 10)
+    rule_strip_provenance(ctx, rep)
+    rule_marker_arith(ctx, rep)
     # R-NEST-PHASE (shared with C07 clause c)
     from . import c07
     cg = ctx.callgraph()
